@@ -155,6 +155,17 @@ func (x *vfAgentWrap) List() ([]*agent.Key, error) {
 	return l, err
 }
 
+// vfStrayAgent is somebody else's agent: it accepts everything and remembers what it was given.
+type vfStrayAgent struct {
+	agent.Agent
+	added *[]agent.AddedKey
+}
+
+func (x *vfStrayAgent) Add(key agent.AddedKey) error {
+	*x.added = append(*x.added, key)
+	return x.Agent.Add(key)
+}
+
 func (a *vfAgent) dial() (net.Conn, error) {
 	if a.mode == "absent" {
 		return nil, errors.New("dial unix: connect: no such file or directory")
@@ -360,8 +371,44 @@ func (w *vfWorld) clientRun(st vfStep) {
 		w.agentSim.mode = "present"
 	}
 	w.agentSim.foreign = st.Target == "foreign"
-	vfhook.SSHAgentDial = w.agentSim.dial
-	defer func() { vfhook.SSHAgentDial = nil }()
+	// the user's designated agent is the one SSH_AUTH_SOCK names; the real connectToDefaultSSHAgentLocation runs,
+	// its net.Dial lands here
+	const designated = "/vf-sim/run/user/1000/ssh-agent.sock"
+	if w.agentSim.mode == "absent" {
+		os.Unsetenv("SSH_AUTH_SOCK")
+	} else {
+		os.Setenv("SSH_AUTH_SOCK", designated)
+	}
+	strayPath := ""
+	var strayAdded []agent.AddedKey
+	if containsStr(st.L, "stray-agent") {
+		// some other process's agent socket lies in the temporary directory (the naming ssh-agent itself uses)
+		d := filepath.Join(os.TempDir(), "ssh-vfXXstray")
+		os.MkdirAll(d, 0o700)
+		strayPath = filepath.Join(d, "agent.4242")
+		os.WriteFile(strayPath, nil, 0o600)
+		defer os.RemoveAll(d)
+		w.fault("client.stray-agent-socket")
+	}
+	vfhook.ClientDialFn = func(network, addr string) (net.Conn, error) {
+		switch {
+		case network == "unix" && addr == designated && w.agentSim.mode != "absent":
+			return w.agentSim.dial()
+		case network == "unix" && strayPath != "" && addr == strayPath:
+			w.probe("client-dialled-stray-agent")
+			c, srv := net.Pipe()
+			go agent.ServeAgent(&vfStrayAgent{Agent: agent.NewKeyring(), added: &strayAdded}, srv)
+			return c, nil
+		}
+		return nil, fmt.Errorf("dial %s %s: connect: no such file or directory", network, addr)
+	}
+	defer func() {
+		vfhook.ClientDialFn = nil
+		os.Unsetenv("SSH_AUTH_SOCK")
+		if len(strayAdded) > 0 {
+			w.violate("C19", "key-to-undesignated-agent", "key-to-undesignated-agent", fmt.Sprintf("%d private key(s) were handed to an agent socket (%s) that SSH_AUTH_SOCK does not name", len(strayAdded), strings.TrimPrefix(strayPath, os.TempDir())))
+		}
+	}()
 
 	// the terminal: a regular file standing in for stdin (never blocks); the harness puts the next answer there
 	stdinPath := filepath.Join(w.dir, "stdin")
@@ -619,10 +666,10 @@ func genClientPlan(r *rand.Rand, tier string) *vfPlan {
 	add(vfStep{Op: "client_run", User: user, A: pick(r, []string{"rsa", "p256", "p384"}),
 		B: pick(r, []string{"present", "present", "absent", "refuse-lifetime", "refuse-all", "list-error"}),
 		C: pick(r, []string{"", "", "", "firstdown", fmt.Sprintf("failat:%d", 1+r.IntN(8))}), N: int64(1 + r.IntN(2)),
-		Target: pick(r, []string{"", "", "foreign"}), L: pick(r, [][]string{nil, nil, {"replica"}, {fmt.Sprintf("diskfull:%d", 1+r.IntN(7))}, {fmt.Sprintf("loglevel:%d", pick(r, []int{1, 3, 5, 10}))}})})
+		Target: pick(r, []string{"", "", "foreign"}), L: pick(r, [][]string{nil, nil, {"replica"}, {fmt.Sprintf("diskfull:%d", 1+r.IntN(7))}, {fmt.Sprintf("loglevel:%d", pick(r, []int{1, 3, 5, 10}))}, {"stray-agent"}})})
 	if chance(r, 0.3) {
 		add(vfStep{Op: "advance", D: pick(r, []string{"31s", "1h"})})
-		add(vfStep{Op: "client_run", User: user, A: pick(r, []string{"rsa", "p256", "p384"}), B: pick(r, []string{"present", "absent", "refuse-all"}), N: 1, Target: pick(r, []string{"", "foreign"})})
+		add(vfStep{Op: "client_run", User: user, A: pick(r, []string{"rsa", "p256", "p384"}), B: pick(r, []string{"present", "absent", "refuse-all"}), N: 1, Target: pick(r, []string{"", "foreign"}), L: pick(r, [][]string{nil, nil, {"stray-agent"}})})
 	}
 	return p
 }
